@@ -323,7 +323,7 @@ def run(tier, seed):
     for name, tmpl in qprogs.amplifiers():
         for e in exps:
             amp_cases.append((name, e, tmpl % (1 << e)))
-    alines = ["a%d %s cpu=%d mem=%d" % (k, hexs(src), 100000, 16 << 20) for k, (_, _, src) in enumerate(amp_cases)]
+    alines = ["a%d %s cpu=%d mem=%d wall=1" % (k, hexs(src), 100000, 16 << 20) for k, (_, _, src) in enumerate(amp_cases)]
     t0 = time.time()
     worst_wall = (0.0, None)
     aouts = []
